@@ -26,9 +26,41 @@ def gate (impl : Option Impl) (t : PyAbi) : Bool :=
   (if t.abiImpl == "abi3" then
      t.impl == "cp" && (match impl with | none => true | some i => !i.gilDisabled)
    else
-     t.abiImpl == "none" ||
-       (t.abiImpl.startsWith t.pyLower &&
-        (match impl with | some i => (t.abiImpl.endsWith "t") == i.gilDisabled | none => true)))
+     t.abiImpl == "none" || abiGate impl t)
+
+/-- what the ABI gate of the code means (fix for D28): the ABI tag is the python tag followed by flag characters
+    that do not begin with a digit — `cp31` does not fit `cp310` — and, when the implementation is known,
+    `t` occurs among the flags exactly for a free-threaded build -/
+theorem abiGate_iff (impl : Option Impl) (t : PyAbi) :
+    abiGate impl t = true ↔
+      ∃ flags : List Char, t.abiImpl.toList = t.pyLower.toList ++ flags ∧
+        (∀ c, flags.head? = some c → c.isDigit = false) ∧
+        (∀ i, impl = some i → flags.contains 't' = i.gilDisabled) := by
+  unfold abiGate abiFlags
+  constructor
+  · intro h
+    simp only [Bool.and_eq_true, Bool.not_eq_true'] at h
+    obtain ⟨⟨hp, hd⟩, hg⟩ := h
+    have hpre := List.isPrefixOf_iff_prefix.1 hp
+    obtain ⟨fl, hfl⟩ := hpre
+    refine ⟨fl, hfl.symm, ?_, ?_⟩
+    · intro c hc
+      rw [← hfl, List.drop_left] at hd
+      rw [hc] at hd; exact hd
+    · intro i hi
+      subst hi
+      rw [← hfl, List.drop_left] at hg
+      simpa using hg
+  · rintro ⟨fl, hfl, hd, hg⟩
+    simp only [Bool.and_eq_true, Bool.not_eq_true']
+    rw [hfl, List.drop_left]
+    refine ⟨⟨List.isPrefixOf_iff_prefix.2 ⟨fl, rfl⟩, ?_⟩, ?_⟩
+    · cases hh : fl.head? with
+      | none => rfl
+      | some c => exact hd c hh
+    · cases impl with
+      | none => rfl
+      | some i => simpa using hg i rfl
 
 /-- the interpreter versions the (python tag, abi tag) pair can run on, as a specifier -/
 def wheelSpec (t : PyAbi) : Option (Spec Ver) :=
